@@ -138,7 +138,26 @@ def apply_op(node: dict, a: list, dtype):
         return x.detach()
     if op == "const":
         return _const(node["cseed"], tuple(node["shape"]), dtype)
+    if op == "slice":
+        return x.reshape(-1)[node["start"]:node["stop"]]
+    if op == "reshape":
+        return x.reshape(node["shape"])
+    if op == "hostile":
+        return VmapHostile.apply(x)
     raise KeyError(op)
+
+
+class VmapHostile(torch.autograd.Function):
+    """y = 1.5 x, with a backward that reads a Python number out of its cotangent: torch.vmap cannot batch it."""
+
+    @staticmethod
+    def forward(ctx, x):
+        return x * 1.5
+
+    @staticmethod
+    def backward(ctx, g):
+        _ = float(g.sum().item())  # data-dependent Python value: raises under vmap
+        return g * 1.5
 
 
 # ------------------------------------------------------------------------------------------------
@@ -180,9 +199,11 @@ def run_nodes(nodes, values, dtype):
     return values
 
 
-def build(desc: dict) -> Built:
+def build(desc: dict, leaves=None) -> Built:
+    """Executes the program on fresh leaves (default) or on the given leaf tensors (several graphs over common leaves)."""
     dtype = DT[desc["dtype"]]
-    leaves = make_leaves(desc["leaves"], desc["vseed"], dtype)
+    if leaves is None:
+        leaves = make_leaves(desc["leaves"], desc["vseed"], dtype)
     values = run_nodes(desc["nodes"], list(leaves), dtype)
     return Built(leaves, values, [values[i] for i in desc["outputs"]])
 
@@ -288,12 +309,16 @@ def _rand_leaf_descs(rng, n, p_rg=0.85):
 
 
 def gen_program(rng, dtype="float64", n_leaves=None, n_nodes=None, n_outputs=None, smooth=False,
-                max_out_scalars=6) -> dict:
+                max_out_scalars=6, leaf_descs=None, vseed=None) -> dict:
     """A random program for backward(): leaves, nodes, 1..3 outputs requiring grad."""
+    fixed_leaves, fixed_seed = leaf_descs, vseed
     for _ in range(50):
-        nl = int(n_leaves or rng.integers(1, 6))
-        leaf_descs = _rand_leaf_descs(rng, nl)
-        vseed = int(rng.integers(1 << 30))
+        if fixed_leaves is not None:
+            leaf_descs, nl = fixed_leaves, len(fixed_leaves)
+        else:
+            nl = int(n_leaves or rng.integers(1, 6))
+            leaf_descs = _rand_leaf_descs(rng, nl)
+        vseed = int(rng.integers(1 << 30)) if fixed_seed is None else fixed_seed
         tdt = DT[dtype]
         leaves = make_leaves(leaf_descs, vseed, tdt)
         deps = [frozenset([i]) if leaf_descs[i]["rg"] else frozenset() for i in range(nl)]
@@ -359,16 +384,16 @@ class BuiltMTL:
         return out
 
 
-def build_mtl(desc: dict, cut: bool = False) -> BuiltMTL:
+def build_mtl(desc: dict, cut: bool = False, shared=None, pool=None) -> BuiltMTL:
     dtype = DT[desc["dtype"]]
     b = BuiltMTL()
-    b.shared = make_leaves(desc["shared"], desc["vseed"], dtype, tag=0)
+    b.shared = make_leaves(desc["shared"], desc["vseed"], dtype, tag=0) if shared is None else shared
     b.trunk_values = run_nodes(desc["trunk_nodes"], list(b.shared), dtype)
     feats = [b.trunk_values[i] for i in desc["features"]]
     if cut:
         feats = [f.detach().requires_grad_() for f in feats]
     b.features = feats
-    b.pool = make_leaves(desc["pool"], desc["vseed"], dtype, tag=1)
+    b.pool = make_leaves(desc["pool"], desc["vseed"], dtype, tag=1) if pool is None else pool
     for h in desc["heads"]:
         base = [feats[i] for i in h["features"]] + [b.pool[i] for i in h["leaves"]] + [b.shared[i] for i in h["around"]]
         vals = run_nodes(h["nodes"], list(base), dtype)
@@ -378,17 +403,21 @@ def build_mtl(desc: dict, cut: bool = False) -> BuiltMTL:
 
 
 def gen_mtl_program(rng, dtype="float64", n_heads=None, n_features=None, allow_around=False,
-                    share_pool=True, disjoint_heads=False) -> dict:
+                    share_pool=True, disjoint_heads=False, shared_descs=None, pool_descs=None, vseed=None) -> dict:
     """Trunk (shared leaves -> 1..3 mutually independent features) and 1..4 heads ending in a 0-d loss.
 
     Leaf naming inside `deps`: ("s", i) trunk leaf, ("p", i) pool leaf.
     `disjoint_heads`: heads share no leaf and no node besides the features (needed by C13).
     """
     tdt = DT[dtype]
+    fixed_seed = vseed
     for _ in range(80):
-        vseed = int(rng.integers(1 << 30))
-        ns = int(rng.integers(1, 4))
-        shared = _rand_leaf_descs(rng, ns, p_rg=0.9)
+        vseed = int(rng.integers(1 << 30)) if fixed_seed is None else fixed_seed
+        if shared_descs is not None:
+            shared, ns = shared_descs, len(shared_descs)
+        else:
+            ns = int(rng.integers(1, 4))
+            shared = _rand_leaf_descs(rng, ns, p_rg=0.9)
         sl = make_leaves(shared, vseed, tdt, tag=0)
         deps = [frozenset([("s", i)]) if shared[i]["rg"] else frozenset() for i in range(ns)]
         g = _Gen(rng, tdt, list(sl), deps, [frozenset() for _ in range(ns)])
@@ -413,9 +442,12 @@ def gen_mtl_program(rng, dtype="float64", n_heads=None, n_features=None, allow_a
         if not feats:
             continue
         nh = int(n_heads or rng.integers(1, 5))
-        npool = int(rng.integers(0, 2 * nh + 1))
-        pool = [{"shape": list(LEAF_SHAPES[rng.integers(len(LEAF_SHAPES))]), "rg": bool(rng.random() < 0.9)}
-                for _ in range(npool)]
+        if pool_descs is not None:
+            pool, npool = pool_descs, len(pool_descs)
+        else:
+            npool = int(rng.integers(0, 2 * nh + 1))
+            pool = [{"shape": list(LEAF_SHAPES[rng.integers(len(LEAF_SHAPES))]), "rg": bool(rng.random() < 0.9)}
+                    for _ in range(npool)]
         pl = make_leaves(pool, vseed, tdt, tag=1)
         heads = []
         ok = True
@@ -529,3 +561,49 @@ def feature_nodes_chained(features) -> bool:
                 seen.add(id(child))
                 stack.append(child)
     return False
+
+
+def with_rows(desc: dict, m: int, rng, hostile: bool = False) -> dict:
+    """Rewrites the outputs of a program so that they hold exactly `m` scalars in 1..3 tensors (C07's (m, k) grid)."""
+    d = {k: v for k, v in desc.items()}
+    nodes = list(desc["nodes"])
+    deps = [list(x) for x in desc["deps"]]
+    nl = len(desc["leaves"])
+    rgv = [i for i in range(len(deps)) if deps[i] and not _is_tuple_value(desc, i)]
+    def push(node, dep):
+        nodes.append(node)
+        deps.append(sorted(dep))
+        return nl + len(nodes) - 1
+    sizes = _value_sizes(desc)
+    cur = int(rgv[rng.integers(len(rgv))])
+    cur_n, cur_dep = sizes[cur], set(deps[cur])
+    cur = push({"op": "flatten", "args": [cur]}, cur_dep)
+    while cur_n < m:
+        other = int(rgv[rng.integers(len(rgv))])
+        cur_dep |= set(deps[other])
+        cur = push({"op": "catflat", "args": [cur, other]}, cur_dep)
+        cur_n += sizes[other]
+    if hostile:
+        cur = push({"op": "hostile", "args": [cur]}, cur_dep)
+    cuts = sorted(set([0, m] + [int(x) for x in rng.integers(1, m, size=int(rng.integers(0, 3)))] if m > 1 else [0, m]))
+    outs = []
+    for a, b in zip(cuts[:-1], cuts[1:]):
+        o = push({"op": "slice", "args": [cur], "start": a, "stop": b}, cur_dep)
+        n = b - a
+        if n % 2 == 0 and n >= 4 and rng.random() < 0.5:
+            o = push({"op": "reshape", "args": [o], "shape": [2, n // 2]}, cur_dep)
+        elif n == 1 and rng.random() < 0.5:
+            o = push({"op": "reshape", "args": [o], "shape": []}, cur_dep)
+        outs.append(o)
+    d["nodes"], d["deps"], d["outputs"] = nodes, deps, outs
+    return d
+
+
+def _is_tuple_value(desc, idx):
+    nl = len(desc["leaves"])
+    return idx >= nl and desc["nodes"][idx - nl]["op"] in ("unbind", "split")
+
+
+def _value_sizes(desc):
+    b = build(desc)
+    return [0 if isinstance(v, tuple) else v.numel() for v in b.values]
